@@ -1075,6 +1075,19 @@ func genEqUnit(r *rand.Rand, id, tier string) string {
 		if r.Intn(12) == 0 {
 			return V{T: 'N'}
 		}
+		if r.Intn(10) == 0 {
+			// a plain []any (what Unmarshal hands out) holding maps, slices, structs, funcs, pointers: whatever an
+			// interface-typed element holds is compared by the rules for that value, never by `==` on the interface
+			v := V{T: 'A'}
+			for i, n := 0, 1+r.Intn(3); i < n; i++ {
+				x := genEqLeaf(r)
+				for tries := 0; tries < 6 && !(x.T == 'E' && strings.ContainsRune("QMTPfc", rune(x.E.C))); tries++ {
+					x = genEqLeaf(r)
+				}
+				v.Xs = append(v.Xs, x)
+			}
+			return v
+		}
 		if r.Intn(8) == 0 {
 			return genEqElem(r, 2)
 		}
